@@ -3,12 +3,16 @@
 
 Proof obligations: Props/C11.lean (generated arithmetic: partition theorems, counterexamples),
 Props/C17Index.lean (index queue, all interleavings), Props/C11Proto.lean (worker / join-counter
-protocol) - all over models whose arithmetic is REGENERATED from the C++ source by
+protocol), Props/C11c.lean (follow-up C11c: the COMPOSED model - plan from the generated arithmetic,
+index-queue load/CAS steps, index loop with the value pack, exception slot, completion; end-to-end
+theorems under Safe) - all over models whose arithmetic is REGENERATED from the C++ source by
 tools/translate/bulk_arith.py on every run.
 Ties: (a) T-gen; (b) E1 controlled schedules of the real contiguous_index_queue replayed through
 the Lean acceptor `iq`; (c) E0 differential execution of the real get_chunk_size / init_queue /
 do_work_chunk against the generated functions; (d) live runs of the real bulk (two thread pools):
-plan + chunk events compared with the model, trace replayed through the protocol acceptor,
+plan + chunk events compared with the model, trace replayed through the protocol acceptor and
+(C11c) through the composed acceptor BulkC (every call of f with index and value token, every load /
+compare-exchange of the index queues, throws, the completion with its token),
 independent monitors on per-index counters and the receiver's signals.
 """
 import os, sys, time, json, re, glob
@@ -16,7 +20,7 @@ sys.path.insert(0, os.path.join(os.path.dirname(os.path.abspath(__file__)), '..'
 from vlib import *
 
 PROP = 'C11'
-PROPS = ['C11', 'C17Index', 'C11Proto']
+PROPS = ['C11', 'C17Index', 'C11Proto', 'C11c']
 JOBS = 6
 U32, U64 = 1 << 32, 1 << 64
 SH = {0: (32, True), 1: (32, False), 2: (64, True), 3: (64, False)}
@@ -107,6 +111,20 @@ def gen_live(rng, cid, big):
                       (16 * w + 3, 2), (rng.below(300), 6), (rng.below(5000), 4), (rng.below(big), 3)])
     n = max(0, n)
     nthrow = rng.weighted([(0, 6), (1, 2), (2, 1), (5, 1)]) if n > 0 else 0
+    slow = 1 if n <= 400 and rng.below(2) == 0 else 0
+    return (f'case {cid} kind=live threads={threads} pool={pool} S={code} n={n} nthrow={nthrow} '
+            f'seed={rng.below(1 << 30)} slow={slow}\nthread 0: run ;\nendcase')
+
+
+def gen_live_throw(rng, cid):
+    """C11c: several throwing calls on several workers (exception slot: the first exchange wins, the
+    others decrement without storing; the error token must be the stored one)."""
+    threads = rng.weighted([(4, 3), (6, 4), (8, 3), (12, 1)])
+    pool = rng.weighted([(0, 1), (1, 1)])
+    w = threads // 2 if pool == 1 else threads - threads // 2
+    code = rng.below(4)
+    n = rng.weighted([(8 * w + 1, 2), (16 * w + 3, 2), (64 + rng.below(300), 4), (rng.below(5000) + 1, 3)])
+    nthrow = 3 + rng.below(10)
     slow = 1 if n <= 400 and rng.below(2) == 0 else 0
     return (f'case {cid} kind=live threads={threads} pool={pool} S={code} n={n} nthrow={nthrow} '
             f'seed={rng.below(1 << 30)} slow={slow}\nthread 0: run ;\nendcase')
@@ -217,6 +235,8 @@ def main():
             groups['bulk'].append(gen_arith(rng, f'a{base_seed}n{i}', budget))
         for i in range(int((1200 if thorough else 90) * scale)):
             groups['bulk'].append(gen_live(rng, f'l{base_seed}n{i}', 2000000 if thorough else 200000))
+        for i in range(int((200 if thorough else 16) * scale)):
+            groups['bulk'].append(gen_live_throw(rng, f't{base_seed}n{i}'))
 
     def run_groups(gr, tag):
         res = []
